@@ -281,6 +281,22 @@ class HighOrderMutator(FirstOrderMutator):
                 for generator in reversed(generators):
                     generator.close()
 
+    def mutation_count(  # noqa: D102
+        self,
+        target_ast: ast.AST,
+        module: types.ModuleType,
+    ) -> int:
+        # A high order mutant combines several first-order mutations, so the total is
+        # the number of combinations the strategy generates, not the number of
+        # first-order mutations. The strategy may draw from the global RNG; its
+        # state is restored so that counting does not change what mutate() yields.
+        mutations = self._generate_all_mutations(module, target_ast)
+        rng_state = randomness.RNG.getstate()
+        try:
+            return sum(1 for _ in self.hom_strategy.generate(mutations))
+        finally:
+            randomness.RNG.setstate(rng_state)
+
     def _generate_all_mutations(
         self,
         module: types.ModuleType,
